@@ -84,9 +84,6 @@ func RewriteSpatialQuery(q Spatial) Query {
 
 func TokensForCovering(covering s2.CellUnion, tokens []string) []string {
 	for _, cell := range covering {
-		if cell.Level() == 0 {
-			continue
-		}
 		tokens = append(tokens, cellIDToToken(cell))
 	}
 	return cellIDAncestorTokens(covering, tokens)
